@@ -55,13 +55,22 @@ CFGS = {
     # ---- witness generation (bin/mkwitness substitutes @TARGET@)
     "WitData": wit(DATA, Savers='{"p", "c"}', MaxSaves="3", MaxAcks="3"),
     "WitGen": wit(GEN, MaxAcks="2", MaxSaves="1"),
-    "WitLife": wit(LIFE, MaxSeq="2", MaxAcks="2", MaxSaves="1", Hold="TRUE"),
+    "WitLifeN": wit(LIFE, MaxNotify="2", MaxEnds="0", MaxSaves="0", MaxAcks="0", Kinds="{}", AllowClose="FALSE", AutoCkpt="FALSE"),
+    "WitLifeC": wit(LIFE, MaxNotify="1", MaxEnds="0", MaxSaves="1", MaxAcks="1", Hold="TRUE"),
+    "WitLifeC2": wit(LIFE, MaxNotify="0", MaxEnds="0", MaxSaves="1", MaxAcks="2", MaxSeq="2", NVB="1"),
+    "WitLifeS": wit(LIFE, MaxNotify="1", MaxEnds="0", MaxSaves="0", MaxAcks="1", MaxSeq="1", AllowClose="FALSE", AutoCkpt="FALSE"),
+    "WitLifeB": wit(LIFE, NVB="1", MaxNotify="0", MaxEnds="1", MaxSaves="0", MaxAcks="2", MaxSeq="2", AllowClose="FALSE", AutoCkpt="FALSE",
+                    EndCauses='{"statechanged"}'),
+    "WitLifeA": wit(LIFE, MaxNotify="1", MaxEnds="1", MaxSaves="0", MaxAcks="2", MaxSeq="2", AllowClose="FALSE", AutoCkpt="FALSE",
+                    EndCauses='{"statechanged"}'),
+    "WitLifeE": wit(LIFE, MaxNotify="0", MaxEnds="2", MaxSaves="0", MaxAcks="1", AllowClose="FALSE", AutoCkpt="FALSE"),
     "WitFault": wit(FAULT),
     "WitFaultLatest": wit(FAULT, AutoReset='"latest"'),
     "WitReplayFault": rep(FAULT, MaxFail="5", MaxSaves="5", MaxAcks="5", MaxCrash="3", MaxGen="5"),
     "WitReplayFaultLatest": rep(FAULT, MaxFail="5", MaxSaves="5", MaxAcks="5", MaxCrash="3", MaxGen="5", AutoReset='"latest"'),
     "WitReplayData": rep(DATA, Savers='{"p", "c"}', MaxSaves="10", MaxAcks="10", MaxCrash="3", MaxGen="4"),
     "WitReplayGen": rep(GEN, MaxSeq="4", MaxSaves="10", MaxAcks="10", MaxCrash="3", MaxGen="4"),
+    "WitReplayLife1": rep(LIFE, NVB="1", MaxSeq="3", MaxSaves="5", MaxAcks="5", MaxNotify="5", MaxEnds="6", Hold="TRUE"),
     "WitReplayLife": rep(LIFE, MaxSeq="3", MaxSaves="5", MaxAcks="5", MaxNotify="5", MaxEnds="6", Hold="TRUE"),
     # ---- start-up faults ------------------------------------------------------------------------------------
     "MCFaultQ": mc(FAULT, MaxFail="1"),
